@@ -183,6 +183,21 @@ func (g *Gen) runOnce() {
 		g.obls = append(g.obls, o)
 	}
 	exit, results := g.execBody(fr, st)
+	// vacuity: for every loop under contract, some back edge must be reachable
+	{
+		var names []string
+		for n := range g.loopBack {
+			names = append(names, n)
+		}
+		sort.Strings(names)
+		for _, n := range names {
+			short := n
+			if i := strings.LastIndex(n, "/loop "); i >= 0 {
+				short = n[i+1:]
+			}
+			g.obls = append(g.obls, &Obligation{Name: g.fnName() + "/vacuity/" + short + " iteration completes", Kind: "vacuity", Fn: g.fnName(), Props: con.Props, Reach: or(g.loopBack[n]...), Goal: "false", Expect: "sat"})
+		}
+	}
 	// vacuity: some normal exit must be reachable (an `ensures false` must be refuted)
 	g.obls = append(g.obls, &Obligation{Name: g.fnName() + "/vacuity/exit reachable", Kind: "vacuity", Fn: g.fnName(), Props: con.Props, Reach: exit.reach, Goal: "false", Expect: "sat"})
 	// postconditions
@@ -758,9 +773,13 @@ func (g *Gen) callAnchors(fr *Frame, st *State, name string, callee *ssa.Functio
 		}
 		env := g.envFor(fr, st)
 		if callee != nil {
+			// the callee's parameters by name (they shadow caller variables of the same name; capture
+			// those in a ghost variable at entry when needed) and as arg0, arg1, ... (arg0 = receiver)
 			for i, p := range callee.Params {
 				if i < len(args) && args[i].T != "" {
-					env.vars[p.Name()] = CV{T: args[i].T, Ty: p.Type()}
+					cv := CV{T: args[i].T, Ty: p.Type()}
+					env.vars[p.Name()] = cv
+					env.vars[fmt.Sprintf("arg%d", i)] = cv
 				}
 			}
 		}
@@ -777,6 +796,7 @@ func calleeParamVars(callee *ssa.Function, args []Val) map[string]CV {
 		for i, p := range callee.Params {
 			if i < len(args) && args[i].T != "" {
 				extra[p.Name()] = CV{T: args[i].T, Ty: p.Type()}
+				extra[fmt.Sprintf("arg%d", i)] = extra[p.Name()]
 			}
 		}
 	}
@@ -906,7 +926,11 @@ func (g *Gen) bindClosureEnv(fr *Frame, st *State) {
 			continue
 		}
 		if key, ok := own[a.Comment]; ok {
-			st.cells[key] = Val{Clo: mkClosure(sib), T: g.addrConst("clo_" + sib.Name())}
+			if fr.sibClos == nil {
+				fr.sibClos = map[interface{}]*Closure{}
+			}
+			fr.sibClos[key] = mkClosure(sib)
+			st.cells[key] = Val{Clo: fr.sibClos[key], T: g.addrConst("clo_" + sib.Name())}
 		}
 	}
 }
